@@ -39,7 +39,7 @@ def run(ctx):
                 "get_header() for k=1..8, each column compared with the specification's canonical list. "
                 "non-trivial = codes scanned + header lines checked")
     ctx.trusted += ["header line split on the preset's delimiter (python)", "TLC, Json/IOUtils community modules"]
-    K = 10 if ctx.thorough() else 8
+    K = 10 if ctx.thorough() else 9
     t = ctx.path("posmap.ndjson")
     vlib.kvh(["table", "posmap", K], out=t)
     # the Python binding's header for every k <= K rides along (names tied to ranks by the same scan)
